@@ -2,6 +2,8 @@ package specgen
 
 import (
 	"fmt"
+
+	"github.com/zclconf/go-cty/cty"
 )
 
 // Alphabet is the set of variants the spec-tree enumerator draws from.
@@ -31,7 +33,7 @@ type Alphabet struct {
 
 // Rich is the alphabet used for shallow trees.
 var Rich = &Alphabet{
-	AttrTys:   []string{TString, TNumber, TBool, TListStr, TMapNum, TObject, TDynamic},
+	AttrTys:   []string{TString, TNumber, TBool, TListStr, TMapNum, TObject, TListObjOpt, TDynamic},
 	AttrReq:   []bool{false, true},
 	Literals:  []*Spec{{K: KLiteral, Ty: TString}, {K: KLiteral, Ty: TNumber, Null: true}},
 	Exprs:     []Expr{S("E"), R("g")},
@@ -42,14 +44,14 @@ var Rich = &Alphabet{
 	MinMax:    [][2]int{{0, 0}, {1, 0}, {0, 1}, {2, 3}},
 	TMinMax:   [][2]int{{0, 0}, {1, 2}},
 	MapLabels: []int{1, 2}, ObjLabels: []int{1, 2},
-	TExpr: []string{"wrap", "isnull"}, TFunc: []string{"wrap", "isnull"},
+	TExpr: []string{"wrap", "isnull", "strlen"}, TFunc: []string{"wrap", "isnull", "strlen"},
 	Refine: []string{"noop", "notnull"}, Validate: []string{"ok", "warn", "rejectnull"},
 	DefaultBoth: true, FullPairs: true,
 }
 
 // Reduced is the alphabet used for the deepest trees of a tier.
 var Reduced = &Alphabet{
-	AttrTys:   []string{TString, TDynamic},
+	AttrTys:   []string{TString, TDynamic, TObject},
 	AttrReq:   []bool{false, true},
 	Literals:  []*Spec{{K: KLiteral, Ty: TString}},
 	Exprs:     []Expr{R("g")},
@@ -60,7 +62,7 @@ var Reduced = &Alphabet{
 	MinMax:    [][2]int{{0, 0}, {1, 2}},
 	TMinMax:   [][2]int{{0, 0}},
 	MapLabels: []int{1, 2}, ObjLabels: []int{1},
-	TExpr: []string{"wrap"}, TFunc: []string{"wrap"},
+	TExpr: []string{"wrap", "strlen"}, TFunc: []string{"wrap", "strlen"},
 	Refine: []string{"notnull"}, Validate: []string{"rejectnull"},
 }
 
@@ -158,9 +160,15 @@ func (g *generator) trees(d int, labels bool) []*Spec {
 				out = append(out, &Spec{K: KDefault, Kids: []*Spec{n, df}})
 			}
 			for _, fn := range a.TExpr {
+				if fn == "strlen" && !n.Implied().Equals(cty.String) {
+					continue // the function takes a string: documented precondition (total for every non-error result)
+				}
 				out = append(out, &Spec{K: KTExpr, Fn: fn, Kids: []*Spec{n}})
 			}
 			for _, fn := range a.TFunc {
+				if fn == "strlen" && !n.Implied().Equals(cty.String) {
+					continue
+				}
 				out = append(out, &Spec{K: KTFunc, Fn: fn, Kids: []*Spec{n}})
 			}
 			for _, fn := range a.Refine {
